@@ -16,7 +16,7 @@ import (
 	"verifharness/sx"
 )
 
-func init() { engines["writebuf"] = engWritebuf }
+func init() { engines["writebuf"] = engWritebuf; engines["flushfault"] = engFlushfault }
 
 // C34: accepted output is flushed, every dropped message is reported.  One case per history of one
 // subscriber connection "c" with a small write buffer:
@@ -257,6 +257,80 @@ func engWritebuf(seed int64, tier string, _ []string, out *sx.Out) {
 			fmt.Fprintf(os.Stderr, "== history %d flavour %d thr %d cmax %d:%s\n%s\n", h, flavour, thr, cmax, bad, strings.Join(log, "\n"))
 		}
 		out.Case(sx.L{sx.N(uint64(thr)), stepsL})
+		b.Shutdown()
+	}
+}
+
+// engFlushfault (C34, clause "nothing is stranded in an internal buffer because a later write
+// failed"): a subscriber with a small write buffer publishes a burst to itself, so direct
+// acknowledgements are parked in the buffer between queued publishes, and ONE Write call on its
+// connection fails (a transient fault) during the burst; afterwards a PINGREQ.  At quiescence every
+// packet reported by OnPacketSent must be on the wire unless the connection was closed.
+//
+//	case = (thr (reportedKey ...) (writtenKey ...) closed fault_consumed)
+func engFlushfault(seed int64, tier string, _ []string, out *sx.Out) {
+	rng := rand.New(rand.NewSource(seed))
+	histories := 300
+	if tier == "thorough" {
+		histories = 6000
+	}
+	for h := 0; h < histories; h++ {
+		thr := []int{64, 16, 200, 1024}[h%4]
+		b := broker.New(broker.Opts{Auth: broker.AllowAuth, ACL: broker.AllowACL, WriteBufferSize: thr})
+		c := b.Connect("10.0.0.2:1", broker.ConnectPk("c", 5, true))
+		_ = b.SendPacket(c, broker.SubscribePk(1, packets.Subscription{Filter: "w/#", Qos: 0}, packets.Subscription{Filter: "x/#", Qos: 1}))
+		b.Drain()
+		b.Rec.Drain()
+		chunkPos := len(c.MC.ChunksFrom(0))
+		var wkeys, rkeys []uint64
+		collect := func() {
+			for _, ch := range c.MC.ChunksFrom(chunkPos) {
+				for _, f := range splitFrames(5, ch.Data) {
+					wkeys = append(wkeys, wbKey(f.ty, f.pid, f.seq))
+				}
+				chunkPos++
+			}
+			for _, e := range b.Rec.Drain() {
+				if e.Client == "c" && e.Name == "PacketSent" {
+					rs := -1
+					if e.Pk.FixedHeader.Type == packets.Publish {
+						rs = seqOf(e.Pk.Payload)
+					}
+					rkeys = append(rkeys, wbKey(e.Pk.FixedHeader.Type, e.Pk.PacketID, rs))
+				}
+			}
+			b.Drain()
+		}
+		seq := 0
+		burst := func(n int) []byte {
+			var data []byte
+			for j := 0; j < n; j++ {
+				seq++
+				topic, qos, pid := "x/a", byte(1), uint16(seq)
+				if rng.Intn(4) == 0 {
+					topic, qos, pid = "w/a", 0, 0
+				}
+				pk := broker.PublishPk(topic, []byte(fmt.Sprintf("%d|%s", seq, strings.Repeat("z", rng.Intn(6)))), qos, false, pid)
+				pk.ProtocolVersion = 5
+				enc, _ := broker.Encode(pk)
+				data = append(data, enc...)
+			}
+			return data
+		}
+		if rng.Intn(2) == 0 {
+			b.Send(c, burst(1+rng.Intn(3))) // some traffic before the fault
+			collect()
+		}
+		c.MC.FailNext(1)
+		b.Send(c, burst(1+rng.Intn(6)))
+		collect()
+		consumed := c.MC.FailPending() == 0
+		c.MC.FailNext(0)
+		if !c.MC.Closed() && !b.Hung {
+			_ = b.SendPacket(c, broker.PingPk())
+			collect()
+		}
+		out.Case(sx.L{sx.N(uint64(thr)), nlist(rkeys), nlist(wkeys), sx.Bool(c.MC.Closed() || b.Hung), sx.Bool(consumed)})
 		b.Shutdown()
 	}
 }
